@@ -29,7 +29,7 @@ func init() {
 			"Non-trivial: the input is longer than 8 bytes; distinct by input text (hash).",
 		Assume:        []string{"a fatal runtime error kills only the worker process; the driver attributes it to the case announced last", "CPU budget per case: 150 s (observed maximum for 3 MB inputs: a few seconds)"},
 		MinNontrivial: tierN(50000, 500000),
-		Required:      []string{"deep", "long", "mixed", "fuzz:accepted", "fuzz:rejected", "ns:unbound-rejected", "mustcompile", "fnargs:accepted", "fnargs:rejected"},
+		Required:      []string{"deep", "long", "mixed", "fuzz:accepted", "fuzz:rejected", "ns:unbound-rejected", "mustcompile", "fnargs:accepted", "fnargs:rejected", "regexlits", "predforms", "usability_probe", "smallest_inputs"},
 		Families: []Family{
 			witnessFamily("C06"),
 			{Name: "deep", N: func(t string) int { return len(c06Deep(t)) }, Run: func(c *Case) { c06Construct(c, c06Deep(c.Tier)[c.Index], "deep") }},
